@@ -287,55 +287,124 @@ def _r2(rep, hexm):
 
 # ----------------------------------------------------------------------
 def _r3(model, rep):
-    """co-indexed arrays: (mask, permutation) typing of locals"""
+    """co-indexed arrays: every local derived from the boolean mask is typed
+    (mask, traversal order, permutation, content).  ``X[mask]`` and
+    ``mask.nonzero()[k]`` enumerate the true entries of ``mask`` in C order
+    of the *indexing* array: through ``mask.T`` the same entries come in the
+    other order.  Element-wise combinations need equal (mask, traversal,
+    permutation); an index component compared with cell numbers must be the
+    component along the mask's cell axis."""
     R3 = "C17-R3"
     mcls = model.cls(MESH, "Mesh")
     fn = mcls.methods["_decode_cell_data"]
     sig: Dict[str, tuple] = {}
     order_of: Dict[str, tuple] = {}
     n_checked = 0
+    masks: Dict[str, Optional[int]] = {}      # name -> cell axis
+
+    def mask_ref(e):
+        """(mask name, transposed?) for ``mask`` / ``mask.T``"""
+        if isinstance(e, ast.Name) and e.id in masks:
+            return e.id, False
+        if isinstance(e, ast.Attribute) and e.attr == "T":
+            r = mask_ref(e.value)
+            if r:
+                return r[0], not r[1]
+        if isinstance(e, ast.Call) and isinstance(e.func, ast.Attribute) \
+                and e.func.attr == "transpose" and not e.args:
+            r = mask_ref(e.func.value)
+            if r:
+                return r[0], not r[1]
+        return None
+
+    def nonzero_of(e):
+        """mask reference enumerated by ``m.nonzero()`` / ``np.nonzero(m)``
+        / ``np.where(m)``"""
+        if isinstance(e, ast.Call):
+            if isinstance(e.func, ast.Attribute) and \
+                    e.func.attr == "nonzero" and not e.args:
+                return mask_ref(e.func.value)
+            if src(e.func) in ("np.nonzero", "np.where") and \
+                    len(e.args) == 1:
+                return mask_ref(e.args[0])
+        return None
 
     def typ(e):
-        """(mask name, permutation tag) or None"""
         if isinstance(e, ast.Name):
             return sig.get(e.id)
         if isinstance(e, ast.Subscript):
-            # X[mask]  /  v[order]  /  mask.nonzero()[k]
-            if isinstance(e.slice, ast.Name) and e.slice.id in masks:
-                return (e.slice.id, "id")
-            if isinstance(e.value, ast.Call) and isinstance(
-                    e.value.func, ast.Attribute) and \
-                    e.value.func.attr == "nonzero" and isinstance(
-                        e.value.func.value, ast.Name) and \
-                    e.value.func.value.id in masks:
-                return (e.value.func.value.id, "id")
+            mr = mask_ref(e.slice)
+            if mr:
+                # X[mask] (or X.T[mask.T]): values at the true entries
+                base_t = isinstance(e.value, ast.Attribute) and \
+                    e.value.attr == "T"
+                if base_t != mr[1]:
+                    return (mr[0], "shape-mismatch", "id", "val")
+                return (mr[0], "T" if mr[1] else "C", "id",
+                        "val:" + src(e.value))
+            nz = nonzero_of(e.value)
+            if nz and isinstance(e.slice, ast.Constant) and \
+                    isinstance(e.slice.value, int):
+                k = e.slice.value
+                axis = (1 - k) if nz[1] else k     # axis of the mask itself
+                return (nz[0], "T" if nz[1] else "C", "id", f"axis:{axis}")
             base = typ(e.value)
             if base and isinstance(e.slice, ast.Name) and \
                     e.slice.id in order_of:
-                if order_of[e.slice.id][0] == base[0] and base[1] == "id":
-                    return (base[0], f"perm:{e.slice.id}")
+                o = order_of[e.slice.id]
+                if o[:3] == base[:3] and base[2] == "id":
+                    return (base[0], base[1], f"perm:{e.slice.id}", base[3])
+                if o[0] == base[0] and base[2] == "id":
+                    # permutation computed for another traversal
+                    return (base[0], base[1],
+                            f"perm:{e.slice.id}(of the {o[1]}-order "
+                            f"traversal)", base[3])
             return None
         if isinstance(e, ast.Call):
             d = src(e.func)
             if d in ("np.sort", "np.unique") and e.args:
                 b = typ(e.args[0])
                 if b:
-                    return (b[0], f"sorted-by-itself@{e.lineno}")
+                    return (b[0], b[1], f"sorted-by-itself@{e.lineno}", b[3])
             if d in ("np.asarray", "np.array") and e.args:
                 return typ(e.args[0])
         return None
-    masks = set()
+
+    def cell_axis(v):
+        """which axis of the mask runs over cells: the operand broadcast
+        with [:, None] supplies axis 0, the per-cell data the other"""
+        for n in ast.walk(v):
+            if isinstance(n, ast.BinOp) and isinstance(n.op, ast.BitAnd):
+                for a, b in ((n.left, n.right), (n.right, n.left)):
+                    sl = [x for x in ast.walk(a)
+                          if isinstance(x, ast.Subscript)
+                          and isinstance(x.slice, ast.Tuple)
+                          and len(x.slice.elts) == 2]
+                    for x in sl:
+                        e0, e1 = x.slice.elts
+                        none0 = isinstance(e0, ast.Constant) and \
+                            e0.value is None
+                        none1 = isinstance(e1, ast.Constant) and \
+                            e1.value is None
+                        if none1 and "nfacets" in src(a) and \
+                                "data" in src(b):
+                            return 1
+                        if none0 and "nfacets" in src(a) and \
+                                "data" in src(b):
+                            return 0
+        return None
+
     stmts = sorted([n for n in ast.walk(fn.node) if isinstance(n, ast.Assign)],
                    key=lambda n: n.lineno)
     for st in stmts:
         if isinstance(st.targets[0], ast.Name):
             name = st.targets[0].id
             v = st.value
-            if name == "mask" or (isinstance(v, ast.Call) and isinstance(
-                    v.func, ast.Attribute) and v.func.attr == "astype"
-                    and src(v.args[0]) == "bool" if isinstance(
-                        v, ast.Call) and v.args else False):
-                masks.add(name)
+            is_bool = isinstance(v, ast.Call) and isinstance(
+                v.func, ast.Attribute) and v.func.attr == "astype" and \
+                v.args and src(v.args[0]) == "bool"
+            if is_bool:
+                masks[name] = cell_axis(v)
                 continue
             if isinstance(v, ast.Call) and src(v.func) == "np.argsort" and \
                     v.args:
@@ -346,6 +415,8 @@ def _r3(model, rep):
             t = typ(v)
             if t:
                 sig[name] = t
+    if not masks:
+        raise AnalysisError("_decode_cell_data: boolean facet mask not found")
     # element-wise combinations
     for n in ast.walk(fn.node):
         pairs = []
@@ -360,20 +431,130 @@ def _r3(model, rep):
             if ta and tb and ta[0] == tb[0]:
                 n_checked += 1
                 cons = f"_decode_cell_data:{src(node)[:40]}"
-                if ta[1] == tb[1]:
-                    rep.ok(R3, cons, f"both operands are indexed by "
-                           f"{ta[0]} under the permutation '{ta[1]}'")
+                if "shape-mismatch" in (ta[1], tb[1]):
+                    rep.fail(R3, FM, "Mesh._decode_cell_data", cons,
+                             "an array is indexed by the transposed mask",
+                             node.lineno)
+                elif ta[1:3] == tb[1:3]:
+                    rep.ok(R3, cons, f"both operands enumerate the entries "
+                           f"of {ta[0]} in {ta[1]} order under the "
+                           f"permutation '{ta[2]}'")
                 else:
                     rep.fail(R3, FM, "Mesh._decode_cell_data", cons,
-                             f"'{src(a)[:30]}' is in the order '{ta[1]}' of "
-                             f"the entries of {ta[0]} but '{src(b)[:30]}' "
-                             f"in the order '{tb[1]}': they are compared "
-                             f"element by element although they are no "
-                             f"longer co-indexed (orientation flags are "
-                             f"attributed to other facets)", node.lineno)
+                             f"'{src(a)[:30]}' lists the entries of {ta[0]} "
+                             f"in {ta[1]}-order under '{ta[2]}' but "
+                             f"'{src(b)[:30]}' in {tb[1]}-order under "
+                             f"'{tb[2]}': they are combined element by "
+                             f"element although they are not co-indexed "
+                             f"(orientation flags are attributed to other "
+                             f"facets)", node.lineno)
+                # meaning of an index component compared with f2t values
+                for t_, other in ((ta, b), (tb, a)):
+                    if t_[3].startswith("axis:") and "f2t" in src(other):
+                        ax = int(t_[3][5:])
+                        ca = masks.get(t_[0])
+                        cons2 = cons + ":axis"
+                        if ca is None:
+                            raise AnalysisError("cell axis of the facet "
+                                                "mask not determined")
+                        if ax == ca:
+                            rep.ok(R3, cons2, f"cell numbers of f2t are "
+                                   f"compared with the mask's cell axis "
+                                   f"({ax})")
+                        else:
+                            rep.fail(R3, FM, "Mesh._decode_cell_data", cons2,
+                                     f"the cells listed in f2t are compared "
+                                     f"with the index along axis {ax} of "
+                                     f"{t_[0]}, which is the local facet "
+                                     f"slot; cells run along axis {ca}",
+                                     node.lineno)
     if n_checked < 1:
         raise AnalysisError("_decode_cell_data: no element-wise combination "
                             "of mask-derived arrays found")
+    _r3_encode(model, rep)
+
+
+def _r3_encode(model, rep):
+    """encoder: the slot of tagged facet b[j] inside its owning cell
+    columns[j] = f2t[ori[j], b[j]] is found by comparing column j of
+    t2f[:, columns] with b[j] - pairwise.  (r, c) of the comparison are slot
+    and tag position; the mask entry is (r, columns[c])."""
+    R3 = "C17-R3"
+    mcls = model.cls(MESH, "Mesh")
+    outer = mcls.methods["_encode_cell_data"]
+    enc = [n for n in ast.walk(outer.node)
+           if isinstance(n, ast.FunctionDef) and n.name == "encode_boundary"]
+    if len(enc) != 1:
+        raise AnalysisError("_encode_cell_data.encode_boundary not found")
+    enc = enc[0]
+    q = "Mesh._encode_cell_data"
+    asg = {}
+    for st in ast.walk(enc):
+        if isinstance(st, ast.Assign) and len(st.targets) == 1:
+            t = st.targets[0]
+            if isinstance(t, ast.Name):
+                asg[t.id] = st.value
+            elif isinstance(t, ast.Tuple) and all(isinstance(x, ast.Name)
+                                                  for x in t.elts):
+                asg[tuple(x.id for x in t.elts)] = st.value
+    # owner cells
+    owner = [k for k, v in asg.items() if isinstance(k, str)
+             and isinstance(v, ast.Subscript) and src(v.value) == "self.f2t"]
+    if len(owner) != 1:
+        raise AnalysisError("encode_boundary: owner-cell lookup in f2t not "
+                            "found")
+    col = owner[0]
+    ix = asg[col].slice
+    okc = isinstance(ix, ast.Tuple) and len(ix.elts) == 2 and \
+        src(ix.elts[0]).endswith(".ori") and \
+        src(ix.elts[1]) == src(ix.elts[0])[:-4]
+    tag = src(ix.elts[1]) if okc else None
+    _v(rep, R3, okc, "encode_boundary:owner",
+       f"owning cell of tagged facet j is f2t[ori[j], {tag}[j]]", q,
+       f"owning cells are {src(asg[col])}: expected f2t[(b.ori, b)] - the "
+       f"cell on the side named by the orientation flag", enc.lineno)
+    if not okc:
+        return
+    nz = [(k, v) for k, v in asg.items() if isinstance(k, tuple)
+          and len(k) == 2 and isinstance(v, ast.Call)
+          and src(v.func) in ("np.nonzero", "np.where")]
+    if len(nz) != 1:
+        raise AnalysisError("encode_boundary: slot search (np.nonzero) not "
+                            "found")
+    (rname, cname), call = nz[0]
+    arg = call.args[0]
+    want_l = f"self.t2f[:, {col}]"
+    cons = "encode_boundary:slot"
+    if isinstance(arg, ast.Compare) and len(arg.ops) == 1 and isinstance(
+            arg.ops[0], ast.Eq) and {src(arg.left), src(arg.comparators[0])} \
+            == {want_l, tag}:
+        rep.ok(R3, cons, f"column j of t2f[:, {col}] compared with "
+               f"{tag}[j]: pairwise")
+    elif isinstance(arg, ast.Call) and src(arg.func) in (
+            "np.isin", "np.in1d") and want_l in [src(a) for a in arg.args]:
+        rep.fail(R3, FM, q, cons,
+                 f"{src(arg)[:60]} tests membership in the whole tag "
+                 f"instead of comparing column j with {tag}[j]: an owning "
+                 f"cell flags every facet it has in the tag, including "
+                 f"facets owned from the other side", call.lineno)
+    else:
+        raise AnalysisError(f"encode_boundary: slot search "
+                            f"'{src(arg)[:60]}' outside the known forms")
+    # scatter target: (slot, owner of the tag position)
+    stores = [st for st in ast.walk(enc) if isinstance(st, ast.Assign)
+              and isinstance(st.targets[0], ast.Subscript)]
+    oks = False
+    for st in stores:
+        sl = st.targets[0].slice
+        if isinstance(sl, ast.Tuple) and len(sl.elts) == 2 and \
+                src(sl.elts[0]) == rname and \
+                src(sl.elts[1]) == f"{col}[{cname}]":
+            oks = True
+    _v(rep, R3, oks, "encode_boundary:scatter",
+       f"mask[{rname}, {col}[{cname}]] set: slot r of the owner of tag "
+       f"position c", q,
+       f"the mask is not set at (slot, owner of the matched tag position) "
+       f"= ({rname}, {col}[{cname}])", enc.lineno)
 
 
 def _deep(typ, e):
@@ -476,6 +657,22 @@ def run(model: Model, rep, tier: str) -> None:
 
 _IO = FIO
 MUTANTS = [
+    ("decoder lists owning cells in the transposed traversal",
+     (FM, "                cells = mask.nonzero()[1][order]",
+      "                cells = mask.T.nonzero()[0][order]"), "C17-R3"),
+    ("decoder compares f2t with the facet-slot index",
+     (FM, "                cells = mask.nonzero()[1][order]",
+      "                cells = mask.nonzero()[0][order]"), "C17-R3"),
+    ("encoder flags every tagged facet of an owning cell",
+     (FM, "            r, c = np.nonzero(self.t2f[:, columns] == b)",
+      "            r, c = np.nonzero(np.isin(self.t2f[:, columns], b))"),
+     "C17-R3"),
+    ("encoder takes the owner from the other side",
+     (FM, "            columns = self.f2t[(b.ori, b)]",
+      "            columns = self.f2t[(1 - b.ori, b)]"), "C17-R3"),
+    ("encoder scatters to the tag position instead of its owner",
+     (FM, "            t2f_mask[(r, columns[c])] = 1",
+      "            t2f_mask[(r, c)] = 1"), "C17-R3"),
     ("two HEX_MAPPING entries exchanged across the vertex/edge border",
      (_IO, "HEX_MAPPING = [0, 3, 6, 2, 1, 5, 7, 4,\n               10, 16,",
       "HEX_MAPPING = [0, 3, 6, 2, 1, 5, 7, 10,\n               4, 16,"),
@@ -543,6 +740,14 @@ MUTANTS = [
       "'subdomains': subdomains,"), "C17-R1"),
 ]
 TWINS = [
+    ("decoder enumerates facets and cells through the transposed mask",
+     [(FM, "                facets = self.t2f[mask]",
+       "                facets = self.t2f.T[mask.T]"),
+      (FM, "                cells = mask.nonzero()[1][order]",
+       "                cells = mask.T.nonzero()[0][order]")]),
+    ("decoder uses np.nonzero(mask)",
+     (FM, "                cells = mask.nonzero()[1][order]",
+      "                cells = np.nonzero(mask)[1][order]")),
     ("bit weights written as powers of two on both sides",
      [(FM, "            return (1 << np.arange(self.refdom.nfacets)) @ "
        "t2f_mask", "            return (2 ** np.arange(self.refdom.nfacets)) "
